@@ -161,6 +161,8 @@ class ExactDiag:
             return
         mpo = self.model.H_MPO
         full_H = mpo.get_W(0).take_slice(mpo.get_IdL(0), 'wL')
+        if mpo.L == 1:  # a single site: the loop below does not reach the last site
+            full_H = full_H.take_slice(mpo.get_IdR(0), 'wR')
         full_H.ireplace_labels(['p', 'p*'], [self._labels_p[0], self._labels_pconj[0]])
         for i in range(1, mpo.L):
             W = mpo.get_W(i, copy=True)
